@@ -26,6 +26,7 @@ type client struct {
 	calls    []call
 	outcomes []int
 	statuses []int
+	lazy     bool // outcomes are chosen (200 or transport error) when a delivery happens, and recorded
 }
 
 type body struct{ fail bool }
@@ -41,6 +42,10 @@ func (b *body) Close() error { return nil }
 func (c *client) Call(headers map[string]string, method string, url string, _ any) (*http.Response, error) {
 	i := len(c.calls)
 	c.calls = append(c.calls, call{headers: headers, method: method, url: url})
+	if i >= len(c.outcomes) && c.lazy {
+		c.outcomes = append(c.outcomes, vh.Choose(2)*2)
+		c.statuses = append(c.statuses, 500)
+	}
 	if i >= len(c.outcomes) {
 		return nil, errors.New("unexpected delivery")
 	}
@@ -213,5 +218,81 @@ func HarnessReport(k int) {
 	}
 	_, uerr := svc.GetWebhookByURL(unknown)
 	vh.Assert("C12/unknown-webhook-is-an-error", uerr != nil)
+	vh.Reach("end")
+}
+
+// HarnessHistory: the service keeps no state of its own between operations. After an arbitrary
+// history of n operations (an event with arbitrary outcomes / registration or re-registration of a
+// stored or new url / deletion of a stored url) on one long-lived service, one further event is
+// delivered (a) by that service and (b) by a service freshly assembled over a copy of the store
+// (a restart): the same targets receive the same requests and the stores end up equal. Together
+// with the single-step harnesses (which start from an arbitrary store) this extends them to histories.
+func HarnessHistory(k int, n int) {
+	db, rows := table(k)
+	maxTries := vh.NondetInt("maxTries")
+	vh.Assume(vh.And(maxTries >= 1, maxTries < 1<<30))
+	cfg := &config.WebhookConfig{MaxTries: maxTries}
+	cl := &client{}
+	svc := notification.NewWebhooksService(hstore.Repos(db).Webhooks, cl, vh.Logger(), cfg)
+	fresh := vh.NondetStr("newurl")
+	vh.Assume(!vh.StrEq(fresh, ""))
+	for i := range rows {
+		vh.Assume(!vh.StrEq(fresh, rows[i].url))
+	}
+	cl.lazy = true
+	outcomes := func(int) { cl.calls, cl.outcomes, cl.statuses = nil, nil, nil }
+	for step := 0; step < n; step++ {
+		switch vh.Choose(3) {
+		case 0:
+			outcomes(k + 1)
+			svc.Notify("event")
+		case 1:
+			url := fresh
+			if c := vh.Choose(k + 1); c < k {
+				url = rows[c].url
+			}
+			_, _ = svc.CreateWebhook("bearer", "", vh.NondetStr("token"), url)
+		case 2:
+			_ = svc.DeleteWebhook(rows[vh.Choose(k)].url)
+		}
+	}
+	// the store as it is now, copied for the restarted service
+	now := vhdb.WebhookRows(db)
+	db2 := vhdb.NewDB()
+	for _, r := range now {
+		vhdb.InsertWebhookRow(db2, r)
+	}
+	outcomes(k + 1)
+	svc2cl := &client{lazy: true}
+	svc2 := notification.NewWebhooksService(hstore.Repos(db2).Webhooks, svc2cl, vh.Logger(), cfg)
+
+	// the restarted service first (its deliveries choose the outcomes), then the long-lived one with the same outcomes
+	svc2.Notify("final")
+	cl2 := svc2cl
+	cl.lazy, cl.outcomes, cl.statuses = false, cl2.outcomes, cl2.statuses
+	svc.Notify("final")
+
+	vh.Observe("deliveries", len(cl2.calls))
+	vh.Assert("C12/history-leaves-no-state-outside-the-store", len(cl.calls) == len(cl2.calls))
+	if len(cl.calls) != len(cl2.calls) {
+		return
+	}
+	for i := range cl.calls {
+		a, b := cl.calls[i], cl2.calls[i]
+		same := vh.And(a.method == b.method, vh.StrEq(a.url, b.url), len(a.headers) == len(b.headers))
+		for h, v := range b.headers {
+			w, ok := a.headers[h]
+			same = vh.And(same, ok, vh.StrEq(v, w))
+		}
+		vh.Assert("C12/history-leaves-no-state-outside-the-store", same)
+	}
+	p1, p2 := vhdb.WebhookRows(db), vhdb.WebhookRows(db2)
+	vh.Assert("C12/history-leaves-no-state-outside-the-store", len(p1) == len(p2))
+	if len(p1) == len(p2) {
+		for i := range p1 {
+			vh.Assert("C12/history-leaves-no-state-outside-the-store", vh.And(vh.StrEq(p1[i].URL, p2[i].URL), p1[i].Active == p2[i].Active, p1[i].ErrorsCount == p2[i].ErrorsCount,
+				vh.StrEq(p1[i].LastEmitStatus, p2[i].LastEmitStatus), vh.StrEq(p1[i].TokenHeader, p2[i].TokenHeader), vh.StrEq(p1[i].Token, p2[i].Token)))
+		}
+	}
 	vh.Reach("end")
 }
